@@ -1,4 +1,5 @@
 import HedVerif.Driver.Util
+import HedVerif.Driver.C09
 import HedVerif.Model.SidecarV
 open Lean
 namespace HedVerif.Driver.C08
@@ -40,14 +41,26 @@ def tableOf (j : Lean.Json) (k : String) : Except String (List (SidecarV.Str × 
 
 def miss (what : String) : List (SidecarV.Str × Nat) := [(("ORACLE-MISS-" ++ what).toList, 1)]
 
+/-- an optional array field -/
+def getArrD (j : Lean.Json) (k : String) : List Lean.Json :=
+  match j.getObjVal? k with
+  | .ok (Lean.Json.arr a) => a.toList
+  | _ => []
+
+/-- `basic`, `full`, `defexpand` as recorded; `defs` / `defissues` (recorded definition counts and issues: used by
+`validate`, i.e. by callers that do not ask for the extraction) and `trees` (the resolved tree of each entry, in the encoding
+of `Driver/C09.nodeOf`: used by `validateD`) are optional -/
 def oracleOf (j : Lean.Json) : Except String Oracle := do
   let basic ← tableOf j "basic"
   let full ← tableOf j "full"
-  let defs ← (← getArr j "defs").mapM fun e => match e with
+  let trees ← (getArrD j "trees").mapM fun e => match e with
+    | Lean.Json.arr #[Lean.Json.str s, t] => do pure (s.toList, ← C09.kidsOf t)
+    | _ => .error "trees entries must be [string, nodes]"
+  let defs ← (getArrD j "defs").mapM fun e => match e with
     | Lean.Json.arr #[Lean.Json.str s, n] => do pure (s.toList, ← asNat n)
     | _ => .error "defs entries must be [string, n]"
   let dx ← (← getArr j "defexpand").mapM asStr
-  let di ← (← getArr j "defissues").mapM fun e => match e with
+  let di ← (getArrD j "defissues").mapM fun e => match e with
     | Lean.Json.arr #[Lean.Json.str k, Lean.Json.str c, sev, col, key] => do
         pure (⟨k.toList, c.toList, ← asNat sev, optStr col, optStr key⟩ : Issue)
     | _ => .error "defissues entries must be [kind, code, sev, col, key]"
@@ -55,7 +68,9 @@ def oracleOf (j : Lean.Json) : Except String Oracle := do
          full := fun s => ((full.find? (·.1 == s)).map (·.2)).getD (miss "FULL")
          defCount := fun s => ((defs.find? (·.1 == s)).map (·.2)).getD 0
          defIssues := di
-         isDefExpand := fun t => dx.contains t }
+         isDefExpand := fun t => dx.contains t
+         defTree := fun s => ((trees.find? (·.1 == s)).map (·.2)).getD []
+         fold := C09.foldAscii }
 
 def issueJson (i : Issue) : Lean.Json :=
   jarr [jstr i.kind, jstr i.code, jnat i.sev, jopt jstr i.col, jopt jstr i.key]
@@ -84,6 +99,17 @@ def handle (op : String) (j : Lean.Json) : Option (Except String Lean.Json) :=
       let doc ← decode (← getVal j "doc")
       let g := if getBoolD j "fixed" true then Guards.fixed else Guards.unfixed
       let O ← oracleOf j
+      if getBoolD j "extract" false then
+        -- the definition part computed by the model (`validateD`); `ext` = folded names of the external dictionaries
+        let ext ← (getArrD j "ext").mapM asStr
+        let dd := match extractDefsDoc g O doc with
+          | .ok (dd, _) => dd
+          | .error _ => []
+        match validateD g O ext doc with
+        | .ok is => pure <| jobj [("ok", jarr (is.map issueJson)), ("early", jbool (early g doc)),
+                                  ("dict", jarr (dd.map C09.entryJson))]
+        | .error e => pure <| jobj [("raise", Lean.Json.str (exnName e))]
+      else
       match validate g O doc with
       | .ok is => pure <| jobj [("ok", jarr (is.map issueJson)), ("early", jbool (early g doc))]
       | .error e => pure <| jobj [("raise", Lean.Json.str (exnName e))]
